@@ -3,8 +3,10 @@
  * Steps (state token is always "-", these are pure functions):
  *   split <d> <s> = [[..],..]        spiftool_split(d, s); d = "-" (NULL: white space) or [codes]; NULL result = []
  *   tok   <d> <s> = [[..],..]        spif_tok_new_from_ptr(s) (+ set_sep(d)) + spif_tok_eval + token list
- *   tok_eval <d> <s> = [[..],..]     spif_tok_set_src(T, s) + spif_tok_set_sep(T, d or NULL) + spif_tok_eval(T) on the ONE tok
- *                                    object T of this script (created by its first tok_eval, deleted at the end): histories
+ *   tok_eval <d> <s> = [[..],..]     spif_tok_set_src(T, s) + spif_tok_set_sep(T, d or NULL; "~": separator left alone) + spif_tok_eval(T)
+ *   tok_setq|tok_setdq|tok_setesc <c> = T,  tok_done = T     spif_tok_set_quote / _set_dquote / _set_escape / spif_tok_done
+ *                                    all on the ONE tok object T of this script (created by its first tok_ step, deleted at the end);
+ *                                    their state token is [quote,dquote,escape] read back from the object
  *   split_rep | tok_rep <d> <B> <K> = {first=[[..],..],n=N,periodic=T|F}   the function on B repeated K times (long counts)
  *   words_rep <B> <K> <[i,..]>      = {n=N,p=[..],w=[[..],..]}             num_words(B^K), get_word / get_pword at the indices
  *   words <s>     = {n=N,p=[..],w=[[..],..]}   num_words(s); get_word(i,s), get_pword(i,s) for i = 1..N
@@ -44,6 +46,33 @@ static const char *tok_readout(spif_tok_t t, vh_sb *ret) {
 static const char *do_step(const vh_step_t *st, vh_sb *ret, vh_sb *state) {
     const char *op = st->op;
     static char msg[128];
+    if (!strncmp(op, "tok_", 4) && strcmp(op, "tok_rep")) {
+        /* steps on the script's ONE tok object: set_src/set_sep/eval, the three setters of the special characters, done().
+         * state token = the object's special characters read back through the getters: [quote,dquote,escape] */
+        const char *bad = NULL;
+        if (SPIF_TOK_ISNULL(T)) T = spif_tok_new();
+        if (SPIF_TOK_ISNULL(T)) return "tok_new=NULL";
+        if (!strcmp(op, "tok_eval") && st->nargs == 2) {
+            /* new source; separator: "-" = none (NULL), "~" = leave the object's separator alone, [..] = this one */
+            unsigned char *s = cu_text(st->args[1], NULL);
+            spif_tok_set_src(T, spif_str_new_from_ptr((spif_charptr_t) s));
+            free(s);
+            if (strcmp(st->args[0], "~")) {
+                unsigned char *d = cu_text(st->args[0], NULL);
+                spif_tok_set_sep(T, d ? spif_str_new_from_ptr((spif_charptr_t) d) : (spif_str_t) NULL);
+                free(d);
+            }
+            if (!spif_tok_eval(T)) return "tok_eval=FALSE";
+            bad = tok_readout(T, ret);
+        } else if (!strcmp(op, "tok_setq") && st->nargs == 1) { sb_bool(ret, spif_tok_set_quote(T, (spif_char_t) vh_int(st->args[0])) ? 1 : 0); }
+        else if (!strcmp(op, "tok_setdq") && st->nargs == 1) { sb_bool(ret, spif_tok_set_dquote(T, (spif_char_t) vh_int(st->args[0])) ? 1 : 0); }
+        else if (!strcmp(op, "tok_setesc") && st->nargs == 1) { sb_bool(ret, spif_tok_set_escape(T, (spif_char_t) vh_int(st->args[0])) ? 1 : 0); }
+        else if (!strcmp(op, "tok_done") && st->nargs == 0) { sb_bool(ret, spif_tok_done(T) ? 1 : 0); }
+        else { snprintf(msg, sizeof(msg), "unknown_op_%s/%d", op, st->nargs); return msg; }
+        sb_printf(state, "[%d,%d,%d]", (int) (unsigned char) spif_tok_get_quote(T), (int) (unsigned char) spif_tok_get_dquote(T),
+                  (int) (unsigned char) spif_tok_get_escape(T));
+        return bad;
+    }
     sb_putc(state, '-');
     if (!strcmp(op, "split") && st->nargs == 2) {
         size_t n; unsigned char *d = cu_text(st->args[0], NULL), *s = cu_text(st->args[1], &n);
@@ -91,16 +120,6 @@ static const char *do_step(const vh_step_t *st, vh_sb *ret, vh_sb *state) {
         if (!spif_tok_eval(t)) { spif_tok_del(t); return "tok_eval=FALSE"; }
         { const char *bad = tok_readout(t, ret); if (bad) { spif_tok_del(t); return bad; } }
         spif_tok_del(t);
-    } else if (!strcmp(op, "tok_eval") && st->nargs == 2) {
-        /* the SAME object as in the previous steps of this script: new source (and separator), evaluate again */
-        unsigned char *d = cu_text(st->args[0], NULL), *s = cu_text(st->args[1], NULL); const char *bad;
-        if (SPIF_TOK_ISNULL(T)) T = spif_tok_new();
-        if (SPIF_TOK_ISNULL(T)) { free(d); free(s); return "tok_new=NULL"; }
-        spif_tok_set_src(T, spif_str_new_from_ptr((spif_charptr_t) s));
-        spif_tok_set_sep(T, d ? spif_str_new_from_ptr((spif_charptr_t) d) : (spif_str_t) NULL);
-        free(d); free(s);
-        if (!spif_tok_eval(T)) return "tok_eval=FALSE";
-        if ((bad = tok_readout(T, ret))) return bad;
     } else if ((!strcmp(op, "split_rep") || !strcmp(op, "tok_rep")) && st->nargs == 3) {
         /* long counts: the block B repeated K times (K * tokens-of-B tokens, 65 536 and more); reported compactly:
          * {first=[the first N/K tokens],n=N,periodic=T|F}   periodic: token i equals token i mod (N/K) for every i */
